@@ -19,6 +19,9 @@ Import ListNotations.
 Module ObjectiveP.
 Import RC.Model.Units.Units RC.Model.Cost.Cost RC.Model.CostSpec.CostSpec RC.Model.Objective.Objective.
 Local Open Scope Q_scope.
+(* [ring] reports "not a valid ring equation" when the context holds a hypothesis such as [forall a, f a == a + y]
+   (observed with Coq 8.16.1); [qring] retries after clearing every hypothesis the goal does not mention *)
+Ltac qring := first [ring | (repeat match goal with H : _ |- _ => clear H end); ring].
 
 (* ------------------------------------------------------------------ conversion factors are positive *)
 Lemma k_dist_pos : forall u v, 0 < k_dist u v.
@@ -80,13 +83,13 @@ Lemma vsum_upd (fs : list (feat Q)) : forall (p q : list Q) i (f : Q -> Q) (q' :
     upd QN q i f = Ok q' -> (forall a, f a == a + y) ->
     vsum fs p q' == vsum fs p q + coef fs i * y.
 Proof.
-  unfold vsum, coef. induction fs as [|ft fs IH]; intros p q i f q' y Hp Hq Hu Hf.
-  - cbn [rows map Qsum fold_right]. destruct i; cbn [nth_error]; ring.
+  unfold vsum, coef, Qsum. induction fs as [|ft fs IH]; intros p q i f q' y Hp Hq Hu Hf.
+  - cbn [rows map Qsum fold_right]. destruct i; cbn [nth_error]; qring.
   - destruct p as [|a p]; [cbn in Hp; lia|]. destruct q as [|b q]; [cbn in Hq; lia|].
     cbn [List.length] in Hp, Hq. cbn [upd] in Hu. destruct i.
-    + injection Hu as <-. cbn [rows map Qsum fold_right nth_error veh_term]. unfold rated. rewrite (Hf b). ring.
+    + injection Hu as <-. cbn [rows map Qsum fold_right nth_error veh_term]. unfold rated. rewrite (Hf b). qring.
     + destruct (upd QN q i f) as [r'| | |] eqn:E; cbn [bind] in Hu; try discriminate. injection Hu as <-.
-      cbn [rows map Qsum fold_right nth_error]. rewrite (IH p q i f r' y); auto; try lia. ring.
+      cbn [rows map Qsum fold_right nth_error]. rewrite (IH p q i f r' y ltac:(lia) ltac:(lia) E Hf). qring.
 Qed.
 
 (* the class of cost models of the property: non-negative weights, rates that are x |-> slope * x with
@@ -100,32 +103,32 @@ Definition blend_ok (fs : list (feat Q)) : Prop := Forall feat_ok fs.
 Lemma coef_nonneg fs i : blend_ok fs -> 0 <= coef fs i.
 Proof.
   intros H. unfold coef. destruct (nth_error fs i) as [f|] eqn:E; [|apply Qle_refl].
-  apply nth_error_In in E. rewrite Forall_forall in H. destruct (H f E) as [H1 [H2 _]]. nra.
+  apply nth_error_In in E. unfold blend_ok in H. rewrite List.Forall_forall in H. destruct (H f E) as [H1 [H2 _]]. nra.
 Qed.
 Lemma vsum_same fs : forall p, blend_ok fs -> vsum fs p p == 0.
 Proof.
-  unfold vsum. induction fs as [|f fs IH]; intros p H; [reflexivity|]. destruct p as [|a p]; [reflexivity|].
+  unfold vsum, Qsum. induction fs as [|f fs IH]; intros p H; [reflexivity|]. destruct p as [|a p]; [reflexivity|].
   inversion H as [|? ? Hf Hr]; subst. cbn [rows map Qsum fold_right veh_term]. rewrite IH by auto.
-  destruct Hf as [_ [_ [H3 _]]]. unfold rated. rewrite H3. ring.
+  destruct Hf as [_ [_ [H3 _]]]. unfold rated. rewrite H3. qring.
 Qed.
 Definition fee (fs : list (feat Q)) (e : Z) : Q := Qsum (map (fun f => fw f * edge_fee (fn f) e) fs).
 Lemma fee_rows fs e : forall p n, (List.length fs <= List.length p)%nat -> (List.length fs <= List.length n)%nat ->
     Qsum (map (edge_term e) (rows fs p n)) == fee fs e.
 Proof.
-  unfold fee. induction fs as [|f fs IH]; intros p n Hp Hn; [reflexivity|].
+  unfold fee, Qsum. induction fs as [|f fs IH]; intros p n Hp Hn; [reflexivity|].
   destruct p as [|a p]; [cbn in Hp; lia|]. destruct n as [|b n]; [cbn in Hn; lia|].
   cbn [List.length] in Hp, Hn. cbn [rows map Qsum fold_right edge_term]. rewrite IH by lia. reflexivity.
 Qed.
 Lemma fee_nonneg fs e : blend_ok fs -> 0 <= fee fs e.
 Proof.
-  unfold fee. induction 1 as [|f fs Hf _ IH]; cbn [map Qsum fold_right]; [apply Qle_refl|].
+  unfold fee, Qsum. induction 1 as [|f fs Hf _ IH]; cbn [map Qsum fold_right]; [apply Qle_refl|].
   destruct Hf as [H1 [_ [_ [H4 _]]]]. specialize (H4 e). nra.
 Qed.
 Lemma turn_rows fs pe : forall p n, blend_ok fs -> Qsum (map (turn_term pe) (rows fs p n)) == 0.
 Proof.
-  induction fs as [|f fs IH]; intros p n H; [reflexivity|]. destruct p as [|a p]; [reflexivity|].
+  unfold Qsum. induction fs as [|f fs IH]; intros p n H; [reflexivity|]. destruct p as [|a p]; [reflexivity|].
   destruct n as [|b n]; [reflexivity|]. inversion H as [|? ? Hf Hr]; subst.
-  cbn [rows map Qsum fold_right turn_term]. rewrite IH by auto. destruct Hf as [_ [_ [_ [_ H5]]]]. rewrite H5. ring.
+  cbn [rows map Qsum fold_right turn_term]. rewrite IH by auto. destruct Hf as [_ [_ [_ [_ H5]]]]. rewrite H5. qring.
 Qed.
 
 (* the syntactic class: Zero, Raw, Factor f with f >= 0, Combined of those *)
@@ -152,7 +155,7 @@ Proof.
     { revert H. induction IH as [|r' l' Hr' _ IHl]; cbn [forallb]; intros H acc Ha Hb; [auto|].
       apply andb_true_iff in H as [H1 H2]. destruct (Hr' H1) as [Hs Hi]. apply IHl; auto; cbn [fst snd].
       - nra.
-      - rewrite Hb, Hi. ring. }
+      - rewrite Hb, Hi. qring. }
     apply G; cbn [fst snd]; [lra|reflexivity].
 Qed.
 
@@ -187,5 +190,265 @@ Proof.
   - apply convert_distance_factor.
   - apply Qinv_comp. apply convert_speed_factor.
 Qed.
+
+
+(* ------------------------------------------------------------------ the objective of a query, in closed form *)
+Module S := RC.Model.Search.Search.
+
+Definition cdir (d : S.dir) : direction := match d with S.Forward => Forward | S.Reverse => Reverse end.
+
+Section Real.
+  Variable g : S.graph.
+  Variable len : nat -> Q.             (* Edge::distance, meters *)
+  Variable gc : nat -> nat -> Q.       (* great-circle oracle between two vertices, meters *)
+  Variable cm : cost_model Q.
+  Variable tm : tmodel QN.
+  Variable wf : Q.
+
+  Notation fs := (cm_feats cm).
+
+  (* the functions the search is run with (Model/Objective.v, read in Q) *)
+  Definition frontierR (e : nat) (st : list Q) (prev : option nat) : res bool := Ok true.       (* NoRestriction *)
+  Definition traverseR (d : S.dir) (e : nat) (prev : option nat) (st : list Q) : res (Q * Q * list Q) :=
+    edge_step QN cm tm (cdir d) e prev (len e) st.
+  Definition estimateR (v t : nat) (st : list Q) : res Q := estimate_cost QN cm tm wf (gc v t) st.
+
+  (* rated, weighted state change of traversing a length [x] at speed [sp] / of the estimate over distance [x] *)
+  Definition lin (from : dist_unit) (x sp : Q) : Q :=
+    match tm with
+    | TDistance m => coef fs (dm_slot m) * (x * k_dist from (dm_unit m) * k_dist (dm_unit m) (dm_funit m))
+    | TSpeed m =>
+        coef fs (sm_tslot m)
+          * ((x * k_dist from (sm_du m) * k_dist (sm_du m) base_distance_unit) / (sp * k_speed (sm_su m) base_speed_unit)
+             * k_time base_time_unit (sm_tu m) * k_time (sm_tu m) (sm_tfunit m))
+        + coef fs (sm_dslot m) * (x * k_dist from (sm_du m) * k_dist (sm_du m) (sm_dfunit m))
+    end.
+  Definition speed_of (e : nat) : Q := match tm with TDistance _ => 1 | TSpeed m => nth e (sm_speeds m) 0 end.
+  Definition max_of : Q := match tm with TDistance _ => 1 | TSpeed m => sm_max m end.
+  Definition lin_edge (e : nat) : Q := lin base_distance_unit (len e) (speed_of e).
+  Definition lin_est (x : Q) : Q := lin Meters x max_of.
+
+  (* the edge-local cost and the heuristic *)
+  Definition c_edge (e : nat) : Q := floor_pos (lin_edge e + fee fs (Z.of_nat e)).
+  Definition h_est (t v : nat) : Q := clip0 (lin_est (gc v t)).
+
+  Hypothesis Hsum : cm_agg cm = ASum.
+  Hypothesis Hblend : blend_ok fs.
+
+  Lemma t_traverse_vsum e (st st' : list Q) : t_traverse QN tm e (len e) st = Ok st' ->
+      (List.length fs <= List.length st)%nat ->
+      List.length st' = List.length st /\ vsum fs st st' == lin_edge e.
+  Proof.
+    intros H Hl. unfold lin_edge, lin, speed_of. destruct tm as [m|m]; cbn [t_traverse] in H.
+    - unfold d_traverse in H. apply add_distance_Q in H as [f [Hu Hf]]. split; [eapply upd_length; eauto|].
+      rewrite (vsum_upd fs st st (dm_slot m) f st' _ Hl Hl Hu Hf). rewrite vsum_same by auto.
+      rewrite convert_distance_factor. qring.
+    - unfold s_traverse in H. destruct (nth_error (sm_speeds m) e) as [speed|] eqn:En; [|discriminate].
+      destruct (create_time QN speed (sm_su m) _ (sm_du m) (sm_tu m)) as [t| | |] eqn:Et; cbn [bind] in H; try discriminate.
+      destruct (add_time QN st (sm_tslot m) (sm_tfunit m) (sm_tu m) t) as [st1| | |] eqn:E1; cbn [bind] in H; try discriminate.
+      apply add_time_Q in E1 as [f1 [Hu1 Hf1]]. apply add_distance_Q in H as [f2 [Hu2 Hf2]].
+      pose proof (upd_length _ _ _ _ Hu1) as L1. pose proof (upd_length _ _ _ _ Hu2) as L2. change (T QN) with Q in *.
+      split; [rewrite L2; exact L1|].
+      assert (Hl1 : (List.length fs <= List.length st1)%nat) by (rewrite L1; exact Hl).
+      rewrite (vsum_upd fs st st1 (sm_dslot m) f2 st' _ Hl Hl1 Hu2 Hf2).
+      rewrite (vsum_upd fs st st (sm_tslot m) f1 st1 _ Hl Hl Hu1 Hf1). rewrite vsum_same by auto.
+      apply create_time_Q in Et as [_ [_ Et]]. rewrite Et. rewrite (nth_error_nth _ _ 0 En).
+      rewrite !convert_distance_factor. qring.
+  Qed.
+
+  Lemma t_estimate_vsum (x : Q) (st dst : list Q) : t_estimate QN tm x st = Ok dst ->
+      (List.length fs <= List.length st)%nat ->
+      List.length dst = List.length st /\ vsum fs st dst == lin_est x.
+  Proof.
+    intros H Hl. unfold lin_est, lin, max_of. destruct tm as [m|m]; cbn [t_estimate] in H.
+    - unfold d_estimate in H. apply add_distance_Q in H as [f [Hu Hf]]. split; [eapply upd_length; eauto|].
+      rewrite (vsum_upd fs st st (dm_slot m) f dst _ Hl Hl Hu Hf). rewrite vsum_same by auto.
+      rewrite convert_distance_factor. qring.
+    - unfold s_estimate in H. cbn [eqb zero QN] in H.
+      destruct (Qeq_bool (convert_distance QN Meters (sm_du m) x) 0) eqn:Ez.
+      + injection H as <-. split; auto. rewrite vsum_same by auto. apply Qeq_bool_iff in Ez.
+        rewrite convert_distance_factor in Ez. rewrite Ez. unfold Qdiv. qring.
+      + destruct (create_time QN (sm_max m) (sm_su m) _ (sm_du m) (sm_tu m)) as [t| | |] eqn:Et; cbn [bind] in H; try discriminate.
+        destruct (add_time QN st (sm_tslot m) (sm_tfunit m) (sm_tu m) t) as [st1| | |] eqn:E1; cbn [bind] in H; try discriminate.
+        apply add_time_Q in E1 as [f1 [Hu1 Hf1]]. apply add_distance_Q in H as [f2 [Hu2 Hf2]].
+        pose proof (upd_length _ _ _ _ Hu1) as L1. pose proof (upd_length _ _ _ _ Hu2) as L2. change (T QN) with Q in *.
+        split; [rewrite L2; exact L1|].
+        assert (Hl1 : (List.length fs <= List.length st1)%nat) by (rewrite L1; exact Hl).
+        rewrite (vsum_upd fs st st1 (sm_dslot m) f2 dst _ Hl Hl1 Hu2 Hf2).
+        rewrite (vsum_upd fs st st (sm_tslot m) f1 st1 _ Hl Hl Hu1 Hf1). rewrite vsum_same by auto.
+        apply create_time_Q in Et as [_ [_ Et]]. rewrite Et.
+        rewrite !convert_distance_factor. qring.
+  Qed.
+
+  Lemma long_enough_dec (p n : list Q) : long_enough fs p n \/ ~ long_enough fs p n.
+  Proof. unfold long_enough. destruct (le_dec (List.length fs) (List.length p)), (le_dec (List.length fs) (List.length n)); tauto. Qed.
+
+  (* edge_cost_local: what an edge costs does not depend on how it was reached nor on the state *)
+  Theorem edge_step_local d e prev (st : list Q) (ac tc : Q) (st' : list Q) :
+      traverseR d e prev st = Ok (ac, tc, st') -> floor_pos (ac + tc) == c_edge e.
+  Proof.
+    unfold traverseR, edge_step.
+    destruct (t_traverse QN tm e (len e) st) as [st1| | |] eqn:Et; cbn [bind]; try discriminate.
+    destruct (edge_traversal QN cm (Z.of_nat e) (option_map Z.of_nat prev) (cdir d) st st st1) as [[a t]| | |] eqn:Ee;
+      cbn [bind]; try discriminate.
+    intros H; injection H as <- <- <-. cbn [fst snd].
+    unfold edge_traversal in Ee.
+    set (pe := edge_pair (Z.of_nat e) (option_map Z.of_nat prev) (cdir d)) in *.
+    destruct (match pe with None => Ok (cost_zero QN) | Some pe0 => do ac <- access_cost QN cm pe0 st st; Ok (add (cost_zero QN) ac) end)
+      as [acc| | |] eqn:Ea; cbn [bind] in Ee; try discriminate.
+    destruct (edge_cost QN cm pe (Z.of_nat e) st st1) as [tot| | |] eqn:Ec; cbn [bind] in Ee; try discriminate.
+    injection Ee as <- <-.
+    destruct (long_enough_dec st st1) as [Hle|Hle].
+    2:{ destruct (entry_points_err cm pe (Z.of_nat e) st st1 Hle) as [_ [He _]]. congruence. }
+    destruct (edge_cost_spec cm pe (Z.of_nat e) st st1 Hle) as [c0 [Hc0 Hc]]. assert (c0 = tot) by congruence. subst c0.
+    pose proof (edge_cost_pos _ _ _ _ _ _ Ec) as Hpos.
+    assert (Hsumq : acc + sub (n:=QN) tot acc == tot) by (change (sub (n:=QN)) with Qminus; qring).
+    rewrite (floor_pos_compat _ _ Hsumq). destruct (floor_pos_spec tot) as [Hfp _]. rewrite (Hfp Hpos).
+    rewrite Hc. unfold charge, c_edge. apply floor_pos_compat.
+    destruct Hle as [Hl0 Hl1].
+    destruct (t_traverse_vsum e st st1 Et Hl0) as [_ Hv].
+    change (T QN) with Q in *. unfold raw_total, veh_total, edge_total, turn_total. rewrite Hsum. cbn [agg_spec].
+    fold (vsum fs st st1). rewrite Hv. rewrite (fee_rows fs (Z.of_nat e) st st1 Hl0 Hl1).
+    destruct pe as [pe0|]; [rewrite (turn_rows fs pe0 st st1 Hblend)|]; qring.
+  Qed.
+
+  Lemma c_edge_pos e : 0 < c_edge e.
+  Proof. apply floor_pos_pos. Qed.
+
+  (* the estimate, whatever the state: clip0 (lin_est (gc v t)) * wf *)
+  Theorem estimate_cost_value v t (st : list Q) (x : Q) : estimateR v t st = Ok x -> x == h_est t v * wf.
+  Proof.
+    unfold estimateR, estimate_cost, h_est.
+    destruct (t_estimate QN tm (gc v t) st) as [dst| | |] eqn:Et; cbn [bind]; try discriminate.
+    destruct (cost_estimate QN cm st dst) as [c0| | |] eqn:Ec; cbn [bind]; try discriminate.
+    intros H; injection H as <-. change (mul (n:=QN)) with Qmult. apply Qmult_comp; [|reflexivity].
+    destruct (long_enough_dec st dst) as [Hle|Hle].
+    2:{ destruct (entry_points_err cm None 0%Z st dst Hle) as [_ [_ [_ He]]]. congruence. }
+    destruct (cost_estimate_spec cm st dst Hle) as [c1 [Hc1 Hc]]. assert (c1 = c0) by congruence. subst c1.
+    rewrite Hc. apply clip0_compat. change (T QN) with Q in *. unfold veh_total. rewrite Hsum. cbn [agg_spec]. fold (vsum fs st dst).
+    destruct Hle as [Hl0 _]. apply (t_estimate_vsum _ _ _ Et Hl0).
+  Qed.
+
+  (* ---- consistency ---- *)
+  (* the network is metrically consistent with the oracle, and the speed table is bounded by max_speed *)
+  Record metric_ok : Prop := mkMetric {
+    gc_nonneg : forall a b, 0 <= gc a b;
+    gc_sym : forall a b, gc a b == gc b a;
+    gc_tri : forall a b c0, gc a c0 <= gc a b + gc b c0;
+    len_ge : forall e ed, S.get_edge g e = Some ed -> gc (S.esrc ed) (S.edst ed) <= len e;
+    speed_ok : forall e ed, S.get_edge g e = Some ed -> 0 < speed_of e /\ speed_of e <= max_of
+  }.
+
+  Lemma Qinv_antitone (a b : Q) : 0 < a -> a <= b -> / b <= / a.
+  Proof.
+    intros Ha Hab. assert (Hb : 0 < b) by lra.
+    assert (Ia : 0 < / a) by (apply Qinv_lt_0_compat; auto). assert (Ib : 0 < / b) by (apply Qinv_lt_0_compat; auto).
+    assert (E1 : a * / a == 1) by (apply Qmult_inv_r; lra). assert (E2 : b * / b == 1) by (apply Qmult_inv_r; lra).
+    assert (H : / b * (a * / a) <= / a * (b * / b)).
+    { assert (Hx : (/ a * / b) * a <= (/ a * / b) * b).
+      { rewrite !(Qmult_comm (/ a * / b)). apply Qmult_le_compat_r; auto. nra. }
+      assert (Ey : / b * (a * / a) == (/ a * / b) * a) by qring.
+      assert (Ez : / a * (b * / b) == (/ a * / b) * b) by qring. rewrite Ey, Ez. exact Hx. }
+    rewrite E1, E2 in H. lra.
+  Qed.
+
+  (* x_u <= l + x_v, all non-negative, traversed at 0 < sp <= max: the estimate from u is at most the edge's
+     rated change plus the estimate from v *)
+  Lemma lin_consistent (xu xv l sp : Q) : 0 <= xu -> 0 <= xv -> 0 <= l -> xu <= l + xv -> 0 < sp -> sp <= max_of ->
+      lin Meters xu max_of <= lin base_distance_unit l sp + lin Meters xv max_of.
+  Proof.
+    intros Hu Hv Hl Hx Hsp Hmx. unfold lin, max_of in *. rewrite base_is_meters.
+    destruct tm as [m|m].
+    - pose proof (coef_nonneg fs (dm_slot m) Hblend) as Hc.
+      pose proof (k_dist_pos Meters (dm_unit m)) as K1. pose proof (k_dist_pos (dm_unit m) (dm_funit m)) as K2.
+      set (K := k_dist Meters (dm_unit m) * k_dist (dm_unit m) (dm_funit m)).
+      assert (HK : 0 < K) by (unfold K; nra).
+      assert (E : forall x, coef fs (dm_slot m) * (x * k_dist Meters (dm_unit m) * k_dist (dm_unit m) (dm_funit m))
+                    == (coef fs (dm_slot m) * K) * x) by (intros; unfold K; qring).
+      rewrite !E. assert (0 <= coef fs (dm_slot m) * K) by nra. nra.
+    - pose proof (coef_nonneg fs (sm_tslot m) Hblend) as Hct. pose proof (coef_nonneg fs (sm_dslot m) Hblend) as Hcd.
+      pose proof (k_dist_pos Meters (sm_du m)) as K1. pose proof (k_dist_pos (sm_du m) (sm_dfunit m)) as K2.
+      pose proof (k_dist_pos (sm_du m) Meters) as K3. pose proof (k_speed_pos (sm_su m) base_speed_unit) as K4.
+      pose proof (k_time_pos base_time_unit (sm_tu m)) as K5. pose proof (k_time_pos (sm_tu m) (sm_tfunit m)) as K6.
+      set (KD := k_dist Meters (sm_du m) * k_dist (sm_du m) (sm_dfunit m)).
+      set (KT := k_dist Meters (sm_du m) * k_dist (sm_du m) Meters * k_time base_time_unit (sm_tu m) * k_time (sm_tu m) (sm_tfunit m)).
+      assert (HKD : 0 < KD) by (unfold KD; nra).
+      assert (HKT : 0 < KT).
+      { unfold KT. assert (0 < k_dist Meters (sm_du m) * k_dist (sm_du m) Meters) by nra.
+        assert (0 < k_dist Meters (sm_du m) * k_dist (sm_du m) Meters * k_time base_time_unit (sm_tu m)) by nra. nra. }
+      set (S4 := k_speed (sm_su m) base_speed_unit) in *.
+      assert (ED : forall x, coef fs (sm_dslot m) * (x * k_dist Meters (sm_du m) * k_dist (sm_du m) (sm_dfunit m))
+                     == (coef fs (sm_dslot m) * KD) * x) by (intros; unfold KD; qring).
+      assert (ET : forall x s, coef fs (sm_tslot m) * ((x * k_dist Meters (sm_du m) * k_dist (sm_du m) Meters) / (s * S4)
+                                   * k_time base_time_unit (sm_tu m) * k_time (sm_tu m) (sm_tfunit m))
+                     == (coef fs (sm_tslot m) * KT) * (x * / (s * S4))) by (intros; unfold KT, Qdiv; qring).
+      rewrite !ED, !ET.
+      set (imax := / (sm_max m * S4)). set (isp := / (sp * S4)).
+      assert (Hmaxpos : 0 < sm_max m) by lra.
+      assert (Him : 0 < imax) by (apply Qinv_lt_0_compat; nra).
+      assert (Hii : imax <= isp) by (apply Qinv_antitone; [nra|]; apply Qmult_le_compat_r; lra).
+      assert (Hd : 0 <= coef fs (sm_dslot m) * KD) by nra. assert (Ht : 0 <= coef fs (sm_tslot m) * KT) by nra.
+      set (cd := coef fs (sm_dslot m) * KD) in *. set (ct := coef fs (sm_tslot m) * KT) in *.
+      assert (T : xu * imax <= l * isp + xv * imax).
+      { assert (xu * imax <= (l + xv) * imax) by (apply Qmult_le_compat_r; lra).
+        assert (l * imax <= l * isp) by (rewrite !(Qmult_comm l); apply Qmult_le_compat_r; lra). lra. }
+      assert (ct * (xu * imax) <= ct * (l * isp + xv * imax)).
+      { rewrite !(Qmult_comm ct). apply Qmult_le_compat_r; auto. }
+      assert (cd * xu <= cd * (l + xv)).
+      { rewrite !(Qmult_comm cd). apply Qmult_le_compat_r; auto. }
+      lra.
+  Qed.
+
+  Lemma lin_est_nonneg (x : Q) : 0 <= x -> 0 < max_of -> 0 <= lin_est x.
+  Proof.
+    intros Hx Hm. unfold lin_est.
+    (* every factor is non-negative *)
+    unfold lin, max_of in *. destruct tm as [m|m].
+    - pose proof (coef_nonneg fs (dm_slot m) Hblend). pose proof (k_dist_pos Meters (dm_unit m)).
+      pose proof (k_dist_pos (dm_unit m) (dm_funit m)).
+      assert (0 <= x * k_dist Meters (dm_unit m)) by nra. assert (0 <= x * k_dist Meters (dm_unit m) * k_dist (dm_unit m) (dm_funit m)) by nra.
+      nra.
+    - pose proof (coef_nonneg fs (sm_tslot m) Hblend). pose proof (coef_nonneg fs (sm_dslot m) Hblend).
+      pose proof (k_dist_pos Meters (sm_du m)). pose proof (k_dist_pos (sm_du m) (sm_dfunit m)).
+      pose proof (k_dist_pos (sm_du m) base_distance_unit). pose proof (k_speed_pos (sm_su m) base_speed_unit).
+      pose proof (k_time_pos base_time_unit (sm_tu m)). pose proof (k_time_pos (sm_tu m) (sm_tfunit m)).
+      assert (A1 : 0 <= x * k_dist Meters (sm_du m)) by nra.
+      assert (A2 : 0 <= x * k_dist Meters (sm_du m) * k_dist (sm_du m) (sm_dfunit m)) by nra.
+      assert (A3 : 0 <= x * k_dist Meters (sm_du m) * k_dist (sm_du m) base_distance_unit) by nra.
+      assert (A4 : 0 < / (sm_max m * k_speed (sm_su m) base_speed_unit)) by (apply Qinv_lt_0_compat; nra).
+      assert (A5 : 0 <= (x * k_dist Meters (sm_du m) * k_dist (sm_du m) base_distance_unit) / (sm_max m * k_speed (sm_su m) base_speed_unit)).
+      { unfold Qdiv. nra. }
+      assert (A6 : 0 <= (x * k_dist Meters (sm_du m) * k_dist (sm_du m) base_distance_unit) / (sm_max m * k_speed (sm_su m) base_speed_unit)
+                        * k_time base_time_unit (sm_tu m)) by nra.
+      assert (A7 : 0 <= (x * k_dist Meters (sm_du m) * k_dist (sm_du m) base_distance_unit) / (sm_max m * k_speed (sm_su m) base_speed_unit)
+                        * k_time base_time_unit (sm_tu m) * k_time (sm_tu m) (sm_tfunit m)) by nra.
+      nra.
+  Qed.
+
+  (* estimate_consistent: the consistency hypothesis of astar_optimal, in the search direction d, for target t *)
+  Theorem estimate_consistent (Hm : metric_ok) d t e ed : S.get_edge g e = Some ed ->
+      h_est t (S.term_vertex d ed) <= c_edge e + h_est t (S.key_vertex d ed).
+  Proof.
+    intros He. destruct (speed_ok Hm e ed He) as [Hs1 Hs2]. assert (Hmax : 0 < max_of) by lra.
+    unfold h_est.
+    set (u := S.term_vertex d ed). set (v := S.key_vertex d ed).
+    pose proof (gc_nonneg Hm u t) as Hu. pose proof (gc_nonneg Hm v t) as Hv.
+    pose proof (gc_nonneg Hm (S.esrc ed) (S.edst ed)) as Hg. pose proof (len_ge Hm e ed He) as Hl.
+    assert (Hx : gc u t <= len e + gc v t).
+    { unfold u, v. destruct d; cbn [S.term_vertex S.key_vertex].
+      - pose proof (gc_tri Hm (S.esrc ed) (S.edst ed) t). lra.
+      - pose proof (gc_tri Hm (S.edst ed) (S.esrc ed) t). pose proof (gc_sym Hm (S.edst ed) (S.esrc ed)). lra. }
+    destruct (clip0_spec (lin_est (gc u t))) as [C1 _]. destruct (clip0_spec (lin_est (gc v t))) as [C2 _].
+    rewrite (C1 (lin_est_nonneg _ Hu Hmax)), (C2 (lin_est_nonneg _ Hv Hmax)).
+    pose proof (lin_consistent (gc u t) (gc v t) (len e) (speed_of e) Hu Hv ltac:(lra) Hx Hs1 Hs2) as Hc.
+    fold (lin_est (gc u t)) in Hc. fold (lin_est (gc v t)) in Hc. fold (lin_edge e) in Hc.
+    pose proof (fee_nonneg fs (Z.of_nat e) Hblend) as Hf.
+    assert (Hfl : lin_edge e + fee fs (Z.of_nat e) <= c_edge e).
+    { unfold c_edge. destruct (Qlt_le_dec 0 (lin_edge e + fee fs (Z.of_nat e))) as [Hp|Hn].
+      - destruct (floor_pos_spec (lin_edge e + fee fs (Z.of_nat e))) as [F1 _]. rewrite (F1 Hp). apply Qle_refl.
+      - pose proof (floor_pos_pos (lin_edge e + fee fs (Z.of_nat e))). lra. }
+    lra.
+  Qed.
+End Real.
 
 End ObjectiveP.
